@@ -78,7 +78,7 @@ def run(repo, tier):
     import concurrent.futures as cf
     import multiprocessing as mp
 
-    seqs = ["A", "B", "AB", "ABA"] if tier == "quick" else ["A", "B", "C", "AB", "ABA", "ABAB", "ACB", "BCA", "ABCA"]
+    seqs = ["A", "B", "C", "AB", "ABA", "AC"] if tier == "quick" else ["A", "B", "C", "AB", "ABA", "ABAB", "ACB", "BCA", "ABCA"]
     with cf.ProcessPoolExecutor(min(len(seqs), 12), mp_context=mp.get_context("fork")) as ex:
         res = list(ex.map(job, [(repo, "x", s) for s in seqs]))
     by = {r["seq"]: r for r in res}
